@@ -176,3 +176,66 @@ func closesOwnedPort(f *ssa.Function) bool {
 	})
 	return found
 }
+
+// runLenKey: an entry is added to a map under a key computed from the map's
+// own length (m[len(m)+1] = v) although entries are also deleted from maps of
+// that type in the package. After a deletion the "next number" repeats: the
+// insertion overwrites a live entry, and a later deletion of that number
+// removes the wrong one. For a table of live connections this means the
+// daemon believes all clients are gone while one is still connected.
+func runLenKey(p *core.Program, r *core.Report, rule, pkg string) {
+	fns := p.FnsInPkg(pkg)
+	deleted := map[string]bool{}
+	for _, fn := range fns {
+		core.Instrs(fn, func(ins ssa.Instruction) {
+			if c, ok := ins.(*ssa.Call); ok {
+				if b, ok := c.Call.Value.(*ssa.Builtin); ok && b.Name() == "delete" {
+					deleted[c.Call.Args[0].Type().String()] = true
+				}
+			}
+		})
+	}
+	n := 0
+	for _, fn := range fns {
+		core.Instrs(fn, func(ins ssa.Instruction) {
+			mu, ok := ins.(*ssa.MapUpdate)
+			if !ok {
+				return
+			}
+			n++
+			construct := core.FnKey(fn) + " key of " + addrDesc(mu.Map) + " identifies the entry"
+			fromLen := false
+			var dep func(v ssa.Value, depth int)
+			dep = func(v ssa.Value, depth int) {
+				if v == nil || depth > 4 || fromLen {
+					return
+				}
+				v = resolveVal(v) // through single-assignment (possibly captured) variables
+				if la := lenArg(v); la != nil && (la == mu.Map || exprKey(la) == exprKey(mu.Map)) {
+					fromLen = true
+					return
+				}
+				switch x := v.(type) {
+				case *ssa.BinOp:
+					dep(x.X, depth+1)
+					dep(x.Y, depth+1)
+				case *ssa.Convert:
+					dep(x.X, depth+1)
+				case *ssa.ChangeType:
+					dep(x.X, depth+1)
+				case *ssa.UnOp:
+					dep(x.X, depth+1)
+				case *ssa.MakeInterface:
+					dep(x.X, depth+1)
+				}
+			}
+			dep(mu.Key, 0)
+			if fromLen && deleted[mu.Map.Type().String()] {
+				r.Bad(rule, construct, p.InsPos(ins), "the key is computed from the current size of the table, and entries are also deleted from it: after a deletion the same key is handed out again, so the new entry overwrites a live one and a later deletion removes the wrong entry - the table can become empty while a client is still connected")
+			} else {
+				r.OK(rule, construct, p.InsPos(ins), "the key does not depend on the size of the table")
+			}
+		})
+	}
+	r.Count(rule+" map insertions in "+pkg, n)
+}
